@@ -53,7 +53,7 @@ PROBES = ["margin_fallback_branch", "boundary_instant", "zero_margin", "large_ep
 
 def plan(tier: str) -> list[dict]:
     q = tier == "quick"
-    return [{"stratum": "sweep", "runs": 64 if q else 3000, "params": {"grid": 60 if q else 400}, "chunk": 4 if q else 100}]
+    return [{"stratum": "sweep", "runs": 64 if q else 3000, "params": {"grid": 60 if q else 400}, "chunk": 4 if q else 30}]
 
 
 def warmup() -> None:
